@@ -241,7 +241,9 @@ def run(ctx):
                        "mismatches": bad_domains}, no_input=True)
     # ---- whole documents: duplicates in every domain at random pair positions; conformant documents report none
     items = engine.make_valid_items(ctx, rng, 80 if quick else 600, variants=2)
-    items += engine.make_mutant_items(ctx, rng, 250 if quick else 2500, owners=("C10",))
+    items += engine.make_mutant_items(ctx, rng, 200 if quick else 2000, owners=("C10",))
+    # duplicates among entities bound to different thread groups / one bound and one not
+    items += engine.make_mutant_items(ctx, rng, 120 if quick else 1200, owners=("C10",), threads=True)
     ev3 = engine.run_items(ctx, items)
     engine.report(ctx, items, "T3 correspondence: duplicates injected into whole documents vs Coq model")
     ctx.coverage["generated_alias_documents"] = generated_alias_documents(ctx)
